@@ -458,6 +458,31 @@ def f_affine(tier="quick", seed=0):
                               "mapping": {"partitioning": {"O": {"Q": ["uniform_shape(%d)" % sz], "W": ["follow(Q)"]}},
                                           "loop-order": {"O": lo}},
                               "extents": ext, "tags": dict(tags, follow=True, aligned=(Q % sz == 0), psize=sz, levels=1)})
+    # two operands at the partitioned level, the follower being the leader of the split or following it
+    dAB = {"A": ["K", "N"], "B": ["M"], "Z": ["M", "N"]}
+    for lo in (["M2", "N", "M1", "M0"], ["M2", "M1", "N", "M0"], ["N", "M2", "M1", "M0"]):
+        specs.append({"name": "affine/sub2/two-level/lo=%s" % ",".join(lo), "decl": dAB, "exprs": ["Z[m, n] = A[2*m, n] * B[m]"],
+                      "mapping": {"partitioning": {"Z": {"M": ["uniform_shape(4)", "uniform_shape(2)"], "K": ["follow(M)"]}},
+                                  "loop-order": {"Z": lo}},
+                      "extents": {"M": 5, "N": 2, "K": 9},
+                      "tags": {"family": "affine", "template": "sub2", "follow": True, "levels": 2, "legal": True}})
+    for lo in (["M1", "N", "M0"], ["N", "M1", "M0"], ["M1", "M0", "N"]):
+        specs.append({"name": "affine/sub2/one-level/lo=%s" % ",".join(lo), "decl": dAB, "exprs": ["Z[m, n] = A[2*m, n] * B[m]"],
+                      "mapping": {"partitioning": {"Z": {"M": ["uniform_shape(2)"], "K": ["follow(M)"]}}, "loop-order": {"Z": lo}},
+                      "extents": {"M": 4, "N": 2, "K": 7},
+                      "tags": {"family": "affine", "template": "sub2", "follow": True, "levels": 1, "legal": True}})
+    dK = {"A": ["K"], "B": ["M"], "Z": ["M"]}
+    for dirs, lab in ((["nway_shape(4)"], "n4"), (["nway_shape(2)"], "n2"), (["uniform_shape(4)"], "u4"), (["nway_shape(3)", "uniform_shape(2)"], "n3u2")):
+        lv = len(dirs)
+        lo = ["M%d" % i for i in range(lv, -1, -1)]
+        specs.append({"name": "affine/sub-followK/%s" % lab, "decl": dK, "exprs": ["Z[m] = A[2*m] * B[m]"],
+                      "mapping": {"partitioning": {"Z": {"K": dirs, "M": ["follow(K)"]}}, "loop-order": {"Z": lo}},
+                      "extents": {"M": 5, "K": 9},
+                      "tags": {"family": "affine", "template": "sub-followK", "follow": True, "levels": lv}})
+        specs.append({"name": "affine/sub-followK/%s/default-lo" % lab, "decl": dK, "exprs": ["Z[m] = A[2*m] * B[m]"],
+                      "mapping": {"partitioning": {"Z": {"K": dirs, "M": ["follow(K)"]}}},
+                      "extents": {"M": 5, "K": 9},
+                      "tags": {"family": "affine", "template": "sub-followK", "follow": True, "levels": lv}})
     # 2-D convolution
     d2 = {"F": ["R", "S"], "I": ["H", "W"], "O": ["P", "Q"]}
     for lo in (["P", "Q", "R", "S"], ["R", "S", "P", "Q"], ["P", "R", "Q", "S"], ["H", "W", "R", "S"], ["H", "R", "W", "S"],
@@ -669,12 +694,41 @@ def mini_metrics_yaml(loop, isect, style, ro, lead="A", levels=None, names=("A",
     return y
 
 
+def reorder_bindings(text, mode):
+    """the order of the component entries of an Einsum's bindings (and of the bindings of one component) carries no
+    meaning: emit the same bindings in another order"""
+    from ruamel.yaml import YAML
+    from .spec import _dump, _plain
+    y = _plain(YAML(typ="safe").load(text))
+    out = {}
+    for einsum, entries in y["bindings"].items():
+        cfg = [e for e in entries if "config" in e]
+        comps = [e for e in entries if "config" not in e]
+        if mode == "reverse-components":
+            comps = list(reversed(comps))
+        elif mode == "rotate-components":
+            comps = comps[1:] + comps[:1]
+        elif mode == "reverse-bindings":
+            comps = [dict(c, bindings=list(reversed(c["bindings"]))) for c in comps]
+        elif mode == "config-last":
+            out[einsum] = comps + cfg
+            continue
+        out[einsum] = cfg + comps
+    return _dump({"bindings": out}, 0)
+
+
 def f_metrics(tier="quick", seed=0):
     import re
     from . import integ
     from . import spec as S
     specs = []
     for s in integ.integration_specs(metrics_only=True):
+        for mode in ("reverse-components", "rotate-components", "reverse-bindings", "config-last"):
+            try:
+                specs.append(dict(s, name=s["name"] + "/" + mode, bindings=reorder_bindings(s["bindings"], mode),
+                                  tags={"family": "metrics", "template": s["name"], "leader_first": True}))
+            except Exception:   # noqa
+                pass
         base = dict(s, tags={"family": "metrics", "template": s["name"], "legal": True, "leader_first": True})
         specs.append(base)
         v = dict(base, name=s["name"] + "/primes", arch=primes_everywhere(s["arch"]))
